@@ -1062,6 +1062,33 @@ struct ops_check
     compound("+=", [](st &l, st const &r) -> st & { return l += r; }, [](T &l, T const &r) { l += r; });
     if constexpr (numeric)
     {
+      // self operand: x op= x
+      if (same(a, b))
+      {
+        bool add_defined = true;
+        if constexpr (std::is_integral_v<T> && std::is_signed_v<T>)
+          add_defined = static_cast<long long>(a) * 2 <= static_cast<long long>(std::numeric_limits<T>::max()) &&
+                        static_cast<long long>(a) * 2 >= static_cast<long long>(std::numeric_limits<T>::min());
+        if (add_defined)
+        {
+          st l(a);
+          l += l;
+          T want(a);
+          want += a;
+          value("+=(self)", a, a, l.get(), want);
+        }
+        st m(a);
+        m -= m;
+        T wz(a);
+        wz -= a;
+        value("-=(self)", a, a, m.get(), wz);
+        st o(a);
+        o ^= o;
+        T wx(a);
+        wx ^= a;
+        value("^=(self)", a, a, o.get(), wx);
+        n += 3;
+      }
       compound("-=", [](st &l, st const &r) -> st & { return l -= r; }, [](T &l, T const &r) { l -= r; });
       bool mul_defined = true;
       if constexpr (std::is_integral_v<T> && sizeof(T) < sizeof(int))
